@@ -215,10 +215,19 @@ func c06MidCases() []c06MidCase {
 }
 
 func init() {
+	// C03: what is left unread of a data frame when the endpoint closes is discarded as payload,
+	// never decoded as frames (the close handshake still completes: Close returns nil when echoed)
+	for _, prop := range []string{"C06", "C03"} {
+		c06MidRegister(prop)
+	}
+}
+
+func c06MidRegister(prop string) {
 	fw.Register(fw.Part{
-		Prop: "C06", Name: "midread",
+		Prop: prop, Name: "midread",
 		Units: func(tier string) []fw.Unit {
 			return []fw.Unit{{ID: "cases", Run: func(c *fw.Ctx) {
+				c.Reprefix = prop != "C06"
 				cases := c06MidCases()
 				for _, cs := range cases {
 					c06MidOne(c, cs)
@@ -235,6 +244,7 @@ func init() {
 				c.EngineError("bad replay data")
 				return
 			}
+			c.Reprefix = prop != "C06"
 			c06MidOne(c, cs)
 		},
 	})
